@@ -116,6 +116,12 @@ theorem wf_succ {p : Prog} (h : wfProg p = true) {ip : Nat} {insn : Insn}
     rw [Array.back?_eq_getElem?, ← this, hi] at h1
     rcases h1 with h1 | h1 <;> simp at h1 <;> contradiction
 
+/-- The numeric clauses of `wfLook` (robust against further clauses being appended). -/
+theorem wfLook_spec {p : Prog} {ip sg eg k : Nat} (h : wfLook p ip sg eg k = true) :
+    sg ≤ eg ∧ eg ≤ p.groups ∧ k < p.insns.size ∧ ip + 1 < k := by
+  simp only [wfLook, Bool.and_eq_true, decide_eq_true_eq] at h
+  refine ⟨?_, ?_, ?_, ?_⟩ <;> omega
+
 theorem lt_of_getElem?_eq_some {α} {a : Array α} {i : Nat} {x : α} (h : a[i]? = some x) : i < a.size := by
   by_cases hlt : i < a.size
   · exact hlt
@@ -257,6 +263,140 @@ theorem backrefIcaseLoop_ok {inp ref : Input} {fwd : Bool} (Gr Gi : Nat → Prop
           exact ⟨r, hr', fun p h => ⟨(hp' p h).1, hm2.le.trans (hp' p h).2⟩⟩
         · exact ⟨none, rfl, fun p h => by cases h⟩
 
+/-! ## Monotonicity of the primitives (no well-formedness needed)
+
+Whenever a primitive returns a new position, it lies weakly after the old one in the direction of
+the run. -/
+
+theorem nextRight_moves {bytes : Array Nat} {p c p' : Nat}
+    (h : Utf8.nextRight bytes p = .ok (some (c, p'))) : p ≤ p' := by
+  unfold Utf8.nextRight at h
+  split at h
+  · cases h
+  · split at h
+    · cases h
+    · rename_i b0 _
+      split at h
+      · simp at h; omega
+      · simp only at h
+        generalize (if (Utf8.seqLen b0 == 2) = true then _ else _ : Option Nat) = cp at h
+        cases cp with
+        | none => cases h
+        | some cc =>
+          simp only at h
+          split at h
+          · simp at h; omega
+          · cases h
+
+theorem ite_ok_some {α} {c : Prop} [Decidable c] {x y : α}
+    (h : (if c then (Except.ok (some x) : Except Unit (Option α)) else Except.error ()) = Except.ok (some y)) :
+    x = y := by
+  split at h
+  · simpa using h
+  · cases h
+
+theorem nextLeft_moves {bytes : Array Nat} {p c p' : Nat}
+    (h : Utf8.nextLeft bytes p = .ok (some (c, p'))) : p' ≤ p := by
+  unfold Utf8.nextLeft at h
+  (repeat' split at h) <;> (try (have := ite_ok_some h; simp only [Prod.mk.injEq] at this)) <;>
+    (try simp at h) <;> (try omega)
+
+theorem next_moves {inp : Input} {fwd : Bool} {p c p' : Nat}
+    (h : Cursor.next inp fwd p = .ok (some (c, p'))) : MovedLe fwd p p' := by
+  unfold Cursor.next at h
+  cases fwd with
+  | true =>
+    simp only [if_true, Input.nextRight] at h
+    refine MovedLe.fwd ?_
+    split at h
+    · exact nextRight_moves h
+    · (repeat' split at h) <;> (try simp at h) <;> (try omega)
+  | false =>
+    simp only [Bool.false_eq_true, if_false, Input.nextLeft] at h
+    refine MovedLe.bwd ?_
+    split at h
+    · exact nextLeft_moves h
+    · (repeat' split at h) <;> (try simp at h) <;> (try omega)
+
+theorem nextByte_moves {inp : Input} {fwd : Bool} {p b p' : Nat}
+    (h : Cursor.nextByte inp fwd p = .ok (some (b, p'))) : MovedLe fwd p p' := by
+  unfold Cursor.nextByte at h
+  cases fwd with
+  | true =>
+    simp only [if_true] at h
+    refine MovedLe.fwd ?_
+    (repeat' split at h) <;> (try simp at h) <;> (try omega)
+  | false =>
+    simp only [Bool.false_eq_true, if_false] at h
+    refine MovedLe.bwd ?_
+    (repeat' split at h) <;> (try simp at h) <;> (try omega)
+
+theorem matchBytes_moves {bytes : Array Nat} {fwd : Bool} {pos p : Nat} {lit : List Nat}
+    (h : Utf8.matchBytes bytes fwd pos lit = some p) : MovedLe fwd pos p := by
+  unfold Utf8.matchBytes Utf8.tryMoveRight Utf8.tryMoveLeft at h
+  cases fwd with
+  | true =>
+    simp only [if_true] at h
+    refine MovedLe.fwd ?_
+    (repeat' split at h) <;> (try simp at h) <;> (try simp_all) <;> (try omega)
+  | false =>
+    simp only [Bool.false_eq_true, if_false] at h
+    refine MovedLe.bwd ?_
+    (repeat' split at h) <;> (try simp at h) <;> (try simp_all) <;> (try omega)
+
+theorem backref_moves {inp : Input} {fwd : Bool} {rs re pos p : Nat}
+    (h : backref inp fwd rs re pos = some p) : MovedLe fwd pos p := by
+  unfold backref Input.subrangeEq at h
+  split at h
+  · cases h
+  · exact matchBytes_moves h
+
+theorem backrefIcaseLoop_moves {inp ref : Input} {fwd : Bool} :
+    ∀ fuel refPos pos p, backrefIcaseLoop inp ref fwd fuel refPos pos = .ok (some p) →
+      MovedLe fwd pos p := by
+  intro fuel
+  induction fuel with
+  | zero => intro refPos pos p h; simp [backrefIcaseLoop] at h
+  | succ fuel ih =>
+    intro refPos pos p h
+    unfold backrefIcaseLoop at h
+    split at h
+    · cases h
+    · simp only [Except.ok.injEq, Option.some.injEq] at h; subst h; exact MovedLe.refl _ _
+    · split at h
+      · cases h
+      · cases h
+      · rename_i hn
+        split at h
+        · exact (next_moves hn).trans (ih _ _ _ h)
+        · cases h
+
+theorem backrefIcase_moves {inp : Input} {fwd : Bool} {rs re pos p : Nat}
+    (h : backrefIcase inp fwd rs re pos = .ok (some p)) : MovedLe fwd pos p := by
+  unfold backrefIcase at h
+  split at h
+  · cases h
+  · exact backrefIcaseLoop_moves _ _ _ _ h
+
+theorem scm_moves {m : Scm} {inp : Input} {fwd : Bool} {pos p : Nat}
+    (h : m.matches inp fwd pos = .ok (some p)) : MovedLe fwd pos p := by
+  unfold Scm.matches at h
+  cases m <;> simp only at h
+  case byteSeq bs =>
+    simp only [Except.ok.injEq, Cursor.tryMatchLit, Input.matchBytes] at h
+    exact matchBytes_moves h
+  all_goals
+    split at h
+    · cases h
+    · cases h
+    · rename_i hn
+      first
+        | (simp only [Except.ok.injEq, Option.some.injEq] at h; subst h; first | exact next_moves hn | exact nextByte_moves hn)
+        | (split at h
+           · simp only [Except.ok.injEq, Option.some.injEq] at h; subst h
+             first | exact next_moves hn | exact nextByte_moves hn
+           · cases h)
+
 /-! ## The ASCII instance -/
 
 /-- `cursor::next` on ASCII input is total on `[0, len]`. -/
@@ -349,10 +489,10 @@ theorem ctrlSuccs_lt {prog : Prog} (hw : wfProg prog = true) {ip : Nat} {insn : 
         · simp only [wfInsn, Bool.and_eq_true, decide_eq_true_eq] at hwb; exact hwb.1.2
   case lookahead =>
     subst ht
-    simp only [wfInsn, wfLook, Bool.and_eq_true, decide_eq_true_eq] at hwi; exact hwi.1.1.2
+    simp only [wfInsn] at hwi; exact (wfLook_spec hwi).2.2.1
   case lookbehind =>
     subst ht
-    simp only [wfInsn, wfLook, Bool.and_eq_true, decide_eq_true_eq] at hwi; exact hwi.1.1.2
+    simp only [wfInsn] at hwi; exact (wfLook_spec hwi).2.2.1
   case loop1 =>
     subst ht
     simp only [wfInsn, Bool.and_eq_true, decide_eq_true_eq] at hwi; exact hwi.1.2
